@@ -124,6 +124,9 @@ class C01(Check):
         if self.tier == "thorough":
             for cnt in (65534, 65535, 65536, 70000):
                 progs.append([("file", b"e%d" % i, Opts()) for i in range(cnt)])
+        # known finding D22: the last central record ends in bytes that look like a ZIP64 locator (20 bytes in front of
+        # the end record): the crate's reader, like CPython's zipfile, takes them for one and cannot open the archive
+        progs.append([("file", b"x" + b"PK\x06\x07" + b"0123456789abcdef", Opts()), ("write", b"data")])
         # each program twice: explicit finish, and plain drop
         both = []
         for j, ops in enumerate(progs):
@@ -148,13 +151,15 @@ class C01(Check):
                 continue
             if len(df) > (4 << 20):
                 continue
-            cases.append(("open " + hexs(df), dict(k="open", n=len(exp), comment=(com[-1] if com else b"").hex())))
+            clen = len(com[-1]) if com else 0
+            fake = len(df) >= 42 + clen and df[len(df) - 42 - clen:len(df) - 38 - clen] == b"PK\x06\x07" and b"PK\x06\x06" not in df[-200 - clen:]
+            cases.append(("open " + hexs(df), dict(k="open", n=len(exp), comment=(com[-1] if com else b"").hex(), fake_locator=fake)))
             idxs = range(len(exp)) if len(exp) <= 12 else r.sample(range(len(exp)), 12)
             for i in idxs:
                 e = exp[i]
                 cases.append(("entry %s %d 0 x %d" % (hexs(df), i, r.choice([1, 7, 4096, 65536]) if len(e[1]) <= 3000 else 65536),
                               dict(k="entry", n=len(exp), name=e[0].hex(), content=e[1].hex() if len(e[1]) <= 70000 else None,
-                                   crc=binascii.crc32(e[1]) & 0xffffffff, usize=len(e[1]), method=e[2], date=e[3], time=e[4], mode=e[5])))
+                                   crc=binascii.crc32(e[1]) & 0xffffffff, usize=len(e[1]), method=e[2], date=e[3], time=e[4], mode=e[5], fake_locator=fake)))
         return cases
 
     def oracle(self, line, meta, out):
@@ -198,6 +203,12 @@ class C01(Check):
         got = bytes.fromhex(r2.group(1))
         if binascii.crc32(got) & 0xffffffff != meta["crc"] or len(got) != meta["usize"] or (meta["content"] is not None and got.hex() != meta["content"]):
             return "content differs after re-reading"
+        return None
+
+    def finding_key(self, line, meta, why):
+        # D22: only archives whose bytes carry the locator signature exactly 20 bytes in front of the end record
+        if isinstance(meta, dict) and meta.get("fake_locator") and ("does not open" in why or "cannot be read back" in why):
+            return "fake-zip64-locator-before-end-record"
         return None
 
     def nontrivial(self, line, meta, out):
